@@ -241,7 +241,7 @@ M("c10-gate-fix-reverted", ["C10"], [(RUN, '''            if self._tasks_started
 M("c10-gate-off-by-one", ["C10"], [(RUN, "if self._tasks_started >= self.max_tasks:", "if self._tasks_started > self.max_tasks:")], "R-C10-GATE")
 M("c10-gate-no-increment", ["C10"], [(RUN, "            self._tasks_started += 1\n", "")], "R-C10-GATE")
 M("c10-gate-permit-leak", ["C10", "C09"], [(RUN, "                self._limiter.release()\n                await self._conn.message_broker.reject(key)\n", "                await self._conn.message_broker.reject(key)\n")], None)
-M("c10-gate-no-reject", ["C10", "C03"], [(RUN, "                self._limiter.release()\n                await self._conn.message_broker.reject(key)\n                return\n", "                self._limiter.release()\n                return\n")], "R-C10-GATE")
+M("c10-gate-no-reject", ["C10"], [(RUN, "                self._limiter.release()\n                await self._conn.message_broker.reject(key)\n                return\n", "                self._limiter.release()\n                return\n")], "R-C10-GATE")
 M("c10-gate-continue-instead-of-return", ["C10"], [(RUN, "                await self._conn.message_broker.reject(key)\n                return\n", "                await self._conn.message_broker.reject(key)\n                continue\n")], "R-C10-GATE")
 M("c10-stop-test-before-count", ["C10"], [(RUN, '''        self._tasks_processed += 1
         if self.max_tasks_hit:
@@ -575,7 +575,7 @@ M("c01-redis-requeue-two-round-trips", ["C01", "C03"], [(RBRK, '''              
     async def queue_declare''')], "R-C01-ATOMIC")
 M("c01-redis-take-direct-zadd", ["C01", "C14"], [(RCONS, "        pipe.zadd(self.broker.processing_queue, {msg_short_name: str(unix_time())})", "        self.conn.zadd(self.broker.processing_queue, {msg_short_name: str(unix_time())})")], None)
 M("c01-redis-unmark-wrong-member", ["C01"], [(RBRK, "        pipe.zrem(self.processing_queue, mnc(key, short=True))", "        pipe.zrem(self.processing_queue, mnc(key))")], "R-C01-TRANSFER")
-M("c01-rabbit-nack-requeues", ["C01", "C12"], [(QBRK, "await self._channel.basic_nack(delivery_tag, requeue=False)  # will trigger dlx", "await self._channel.basic_nack(delivery_tag)")], None)
+M("c01-rabbit-nack-requeues", ["C01"], [(QBRK, "await self._channel.basic_nack(delivery_tag, requeue=False)  # will trigger dlx", "await self._channel.basic_nack(delivery_tag)")], None)
 M("c01-rabbit-reject-drops", ["C01", "C03"], [(QBRK, "await self._channel.basic_reject(delivery_tag, requeue=True)", "await self._channel.basic_reject(delivery_tag, requeue=False)")], None)
 M("c01-rabbit-requeue-publish-first", ["C01", "C14"], [(QBRK, "        await self.ack(key)\n        await self.enqueue(key, payload, params)", "        await self.enqueue(key, payload, params)\n        await self.ack(key)")], None)
 M("c01-inmem-consume-add-after-sleep", ["C01", "C14"], [(MCONS, "        self._queue.processing.add(msg)\n\n        await asyncio.sleep(0)\n", "        await asyncio.sleep(0)\n        self._queue.processing.add(msg)\n\n")], None)
